@@ -10,7 +10,7 @@ Import ListNotations.
 Local Open Scope N_scope.
 
 (* a vote a correct replica has sent (PROPOSE_VOTE or PRECOMMIT_VOTE; election votes carry no value) *)
-Record hvote := mkHV { hv_from : N; hv_view : view; hv_block : N; hv_results : N }.
+Record hvote := mkHV { hv_from : N; hv_view : view; hv_block : N; hv_results : N; hv_proposer : N }.
 
 Record net := mkNet {
   n_reps : list (N * rstate);      (* the correct replicas: validator index and state *)
@@ -29,8 +29,8 @@ Definition set_rep (n : net) (i : N) (r : rstate) : list (N * rstate) :=
 
 Definition votes_of (i : N) (outs : list out) : list hvote :=
   flat_map (fun o => match o with
-                     | OVote ph root round b s _ _ =>
-                       if (ph =? Phase_PROPOSE_VOTE) || (ph =? Phase_PRECOMMIT_VOTE) then [mkHV i (mkView root round ph) b s] else []
+                     | OVote ph root round b s pr _ =>
+                       if (ph =? Phase_PROPOSE_VOTE) || (ph =? Phase_PRECOMMIT_VOTE) then [mkHV i (mkView root round ph) b s pr] else []
                      | _ => []
                      end) outs.
 
@@ -59,12 +59,13 @@ Definition net_step (powers : list N) (lru : N) (n : net) (a : action) : net :=
 
 (* ---- what the adversary cannot do *)
 Definition is_correct (n : net) (i : N) : bool := existsb (fun e => fst e =? i) (n_reps n).
-(* a verifying PROPOSE_VOTE / PRECOMMIT_VOTE certificate names a correct signer only if that replica sent exactly this vote *)
+(* a verifying PROPOSE_VOTE / PRECOMMIT_VOTE certificate names a correct signer only if that replica sent exactly this vote
+   (the signed payload is the view, both hashes and the proposer key) *)
 Definition genuine (n : net) (q : qc) : Prop :=
   q_sigok q = true ->
   (vw_phase (q_view q) = Phase_PROPOSE_VOTE \/ vw_phase (q_view q) = Phase_PRECOMMIT_VOTE) ->
   forall s, In s (q_signers q) -> is_correct n s = true ->
-            In (mkHV s (q_view q) (q_block q) (q_results q)) (n_votes n).
+            In (mkHV s (q_view q) (q_block q) (q_results q) (q_proposer q)) (n_votes n).
 Definition genuine_opt (n : net) (q : option qc) : Prop := match q with Some h => genuine n h | None => True end.
 
 Definition action_ok (n : net) (a : action) : Prop :=
